@@ -14,7 +14,7 @@ from checks import common, c08
 
 ID = 'C10'
 LEVEL = 'exploration'
-TIERS = {'quick': 60000, 'thorough': 4000000}
+TIERS = {"quick": 60000, "thorough": 3000000}
 BUDGET = {'quick': 150, 'thorough': 1500}
 RULE = ('seeded plans: constrained universe descriptor T + value; input b = valid encoding of T | encoding of a value of a neighbouring type | '
         '1-3 stored-byte corruptions of either; decoder {ber,cer,der} guided by T, one-shot or streaming under a seeded arrival schedule. '
